@@ -237,8 +237,13 @@ def cmd_check(pid, tier, seed):
         pass
     wall = time.time() - t0
     # ---- output lines
+    seen_known = set()
     for k, entry, v, rp in known_hits:
-        print("KNOWN-FINDING: property=%s %s [harness %s, %s %r, replay %s]" % (pid, k.get("text", ""), entry, v["kind"], v["label"], os.path.relpath(rp, ROOT)))
+        kid = k.get("id", k.get("text", ""))
+        if kid in seen_known:
+            continue
+        seen_known.add(kid)
+        print("KNOWN-FINDING: property=%s %s [%s; harness %s, %s %r, replay %s]" % (pid, k.get("text", ""), kid, entry, v["kind"], v["label"], os.path.relpath(rp, ROOT)))
     for entry, v, rp in violations:
         print("VIOLATION property=%s replay=%s   (%s: %s %r at %s)" % (pid, os.path.relpath(rp, ROOT), entry, v["kind"], v["label"], v["where"]))
     for s in inconclusive[:40]:
